@@ -1,7 +1,8 @@
 // C05 / K2 — RAAssignment (asmjit/core/raassignment_p.h): the lemma
 //   "the allocator's idea of where each value lives is a partial injection at every step".
 // One operation from an ARBITRARY CONSISTENT state. Sizes: 2 register groups x 8 physical registers (groups 2 and 3 have no
-// registers), 6 work registers whose group (0 or 1) is symbolic. A consistent state is fully described by a model
+// registers), 6 work registers whose group (0 or 1) is symbolic; the *_x64 harnesses (unit assign_x64, -DC05_X64) use the x86-64
+// register file 16 + 32 + 8 + 8 in 4 groups and 8 work registers. A consistent state is fully described by a model
 //   loc[w] in {none, 0..7}  (injective among the work registers of one group),   dirty[w] (only if loc[w] != none)
 // and is the following contents of the real maps:
 //   WorkToPhysMap.phys_ids[w]          = loc[w] or kPhysNone
@@ -15,11 +16,12 @@
 
 
 static inline void layout_checks(const Env& e) {
-  V_ASSERT(e.as._layout.phys_total == G * P && e.as._layout.work_count == W, "assignment: layout totals");
-  V_ASSERT(e.as._layout.phys_index.get(RegGroup(0)) == 0 && e.as._layout.phys_index.get(RegGroup(1)) == P &&
-           e.as._layout.phys_index.get(RegGroup(2)) == 2 * P && e.as._layout.phys_index.get(RegGroup(3)) == 2 * P, "assignment: group g starts at the sum of the counts below it");
-  V_ASSERT(e.as._phys_to_work_ids[RegGroup(0)] == e.pm.work_ids && e.as._phys_to_work_ids[RegGroup(1)] == e.pm.work_ids + P, "assignment: per-group views point into the one map");
-  V_ASSERT(RAAssignment::PhysToWorkMap::size_of(G * P) == sizeof(PMap) && RAAssignment::WorkToPhysMap::size_of(W) == sizeof(WMap), "assignment: map sizes");
+  V_ASSERT(e.as._layout.phys_total == TOTAL && e.as._layout.work_count == W, "assignment: layout totals");
+  for (unsigned g = 0; g < 4; g++) {
+    V_ASSERT(e.as._layout.phys_index.get(RegGroup(g)) == BASE[g], "assignment: group g starts at the sum of the counts below it");
+    V_ASSERT(e.as._phys_to_work_ids[RegGroup(g)] == e.pm.work_ids + BASE[g], "assignment: per-group views point into the one map");
+  }
+  V_ASSERT(RAAssignment::PhysToWorkMap::size_of(TOTAL) == sizeof(PMap) && RAAssignment::WorkToPhysMap::size_of(W) == sizeof(WMap), "assignment: map sizes");
 }
 
 // the real maps are exactly the maps of the model
@@ -31,13 +33,13 @@ static inline void equals_model(const Env& e, const Model& m) {
     V_ASSERT((e.pm.dirty._masks[g] & ~e.pm.assigned._masks[g]) == 0, "assignment: dirty is a subset of assigned");
     verif_observe(e.pm.assigned._masks[g]); verif_observe(e.pm.dirty._masks[g]);
   }
-  for (unsigned i = 0; i < G * P; i++) { V_ASSERT(e.pm.work_ids[i] == xp.work_ids[i], "assignment: phys to work map holds exactly the model"); verif_observe(uint32_t(e.pm.work_ids[i])); }
+  for (unsigned i = 0; i < TOTAL; i++) { V_ASSERT(e.pm.work_ids[i] == xp.work_ids[i], "assignment: phys to work map holds exactly the model"); verif_observe(uint32_t(e.pm.work_ids[i])); }
   for (unsigned w = 0; w < 8; w++) { V_ASSERT(e.wm.phys_ids[w] == xw.phys_ids[w], "assignment: work to phys map holds exactly the model"); verif_observe(e.wm.phys_ids[w]); }
   // the lemma, stated directly on the real maps through the real accessors
   for (unsigned w = 0; w < W; w++) {
     uint32_t p = e.as.work_to_phys_id(RegGroup(m.grp[w]), RAWorkId(w));
     if (p != NONE) {
-      V_ASSERT(p < P, "assignment: an assigned work register is in an existing physical register");
+      V_ASSERT(p < PC[m.grp[w]], "assignment: an assigned work register is in an existing physical register");
       V_ASSERT(e.as.phys_to_work_id(RegGroup(m.grp[w]), p) == RAWorkId(w), "assignment: the maps are mutually inverse");
       V_ASSERT(e.as.is_phys_assigned(RegGroup(m.grp[w]), p), "assignment: an occupied register is marked assigned");
     }
@@ -56,7 +58,8 @@ static void step(Model& m, unsigned w) {
   layout_checks(e);
   const RegGroup g = RegGroup(GRP);
   // the physical register argument: the one the work register is in, except for assign (any free one)
-  unsigned p = OP == kAssign ? (nondet_u8() & 7) : m.loc[w];
+  unsigned p = OP == kAssign ? (nondet_u8() & PMASK) : m.loc[w];
+  if (OP == kAssign) V_ASSUME(p < PC[GRP]);
   if (OP != kAssign) V_ASSUME(p != NONE);
   verif_observe(w); verif_observe(p);
   if (OP == kAssign) {
@@ -72,7 +75,8 @@ static void step(Model& m, unsigned w) {
     V_WITNESS("unassign");
   }
   else if (OP == kReassign) {
-    unsigned dst = nondet_u8() & 7;
+    unsigned dst = nondet_u8() & PMASK;
+    V_ASSUME(dst < PC[GRP]);
     V_ASSUME(dst != p && phys_free(m, GRP, dst));
     e.as.reassign(g, RAWorkId(w), dst, p);
     m.loc[w] = uint8_t(dst);
@@ -100,9 +104,14 @@ static void step(Model& m, unsigned w) {
   equals_model(e, m);
 }
 
-#define STEP_HARNESS(name, OP) HARNESS h_assign_##name() { \
+#ifdef C05_X64
+#define HN(name) h_assign_##name##_x64
+#else
+#define HN(name) h_assign_##name
+#endif
+#define STEP_HARNESS(name, OP) HARNESS HN(name)() { \
   Model m; model_nondet(m); unsigned w = nondet_u8() & 7; V_ASSUME(w < W); \
-  if (m.grp[w] == 0) step<0, OP>(m, w); else step<1, OP>(m, w); }
+  if (m.grp[w] == 0) step<0, OP>(m, w); else if (m.grp[w] == 1) step<1, OP>(m, w); else if (G > 2 && m.grp[w] == 2) step<2, OP>(m, w); else if (G > 2) step<3, OP>(m, w); }
 STEP_HARNESS(assign, kAssign)
 STEP_HARNESS(unassign, kUnassign)
 STEP_HARNESS(reassign, kReassign)
@@ -112,14 +121,17 @@ STEP_HARNESS(dirty, kDirty)
 
 // --------------------------------------------------------------------------------------------------------------------------
 // copy_from (both forms), equals, swap(RAAssignment&), assign_work_ids_from_phys_ids, the maps' reset/unassign helpers
-HARNESS h_assign_copy() {
+HARNESS HN(copy)() {
   Model m1, m2; model_nondet(m1); model_nondet(m2);
-  for (unsigned w = 0; w < W; w++) m2.grp[w] = m1.grp[w];      // one function: both assignments are over the same work registers
+  for (unsigned w = 0; w < W; w++) {                            // one function: both assignments are over the same work registers
+    m2.grp[w] = m1.grp[w];
+    if (m2.loc[w] != NONE && m2.loc[w] >= PC[m2.grp[w]]) { m2.loc[w] = NONE; m2.dirty[w] = false; }
+  }
   for (unsigned a = 0; a < W; a++) for (unsigned b = a + 1; b < W; b++) V_ASSUME(!(m2.grp[a] == m2.grp[b] && m2.loc[a] != NONE && m2.loc[a] == m2.loc[b]));
   ENV(e1); env_init(e1, m1);
   // the second assignment shares layout and work registers with the first (as cur/tmp assignments of the local allocator do)
   PMap pm2; WMap wm2; RAAssignment as2;
-  RARegCount pc; pc.reset(); pc.set(RegGroup(0), P); pc.set(RegGroup(1), P);
+  RARegCount pc; pc.reset(); for (unsigned g = 0; g < G; g++) pc.set(RegGroup(g), PC[g]);
   as2.init_layout(pc, g_work_regs);
   maps_of(m2, pm2, wm2);
   as2.init_maps(reinterpret_cast<RAAssignment::PhysToWorkMap*>(&pm2), reinterpret_cast<RAAssignment::WorkToPhysMap*>(&wm2));
@@ -136,8 +148,8 @@ HARNESS h_assign_copy() {
     default: {
       e1.as.swap(as2);
       V_ASSERT(as2.phys_to_work_map() == reinterpret_cast<RAAssignment::PhysToWorkMap*>(&e1.pm) && as2.work_to_phys_map() == reinterpret_cast<RAAssignment::WorkToPhysMap*>(&e1.wm), "assignment: swap hands the maps over");
-      V_ASSERT(e1.as.phys_to_work_map() == reinterpret_cast<RAAssignment::PhysToWorkMap*>(&pm2) && e1.as._phys_to_work_ids[RegGroup(1)] == pm2.work_ids + P, "assignment: swap takes the other maps and views");
-      V_ASSERT(as2._phys_to_work_ids[RegGroup(0)] == e1.pm.work_ids && as2._phys_to_work_ids[RegGroup(1)] == e1.pm.work_ids + P, "assignment: swap hands the views over");
+      V_ASSERT(e1.as.phys_to_work_map() == reinterpret_cast<RAAssignment::PhysToWorkMap*>(&pm2) && e1.as._phys_to_work_ids[RegGroup(1)] == pm2.work_ids + BASE[1], "assignment: swap takes the other maps and views");
+      V_ASSERT(as2._phys_to_work_ids[RegGroup(0)] == e1.pm.work_ids && as2._phys_to_work_ids[RegGroup(1)] == e1.pm.work_ids + BASE[1], "assignment: swap hands the views over");
       V_WITNESS("swap-assignments");
       return;
     }
@@ -146,29 +158,30 @@ HARNESS h_assign_copy() {
   V_ASSERT(e1.as.equals(as2), "assignment: a copy equals its source");
   // the source is untouched
   PMap xp; WMap xw; maps_of(m2, xp, xw);
-  for (unsigned i = 0; i < G * P; i++) V_ASSERT(pm2.work_ids[i] == xp.work_ids[i], "assignment: copy leaves the source alone");
+  for (unsigned i = 0; i < TOTAL; i++) V_ASSERT(pm2.work_ids[i] == xp.work_ids[i], "assignment: copy leaves the source alone");
 }
 
-HARNESS h_assign_maps() {
+HARNESS HN(maps)() {
   Model m; model_nondet(m);
   ENV(e); env_init(e, m);
   RAAssignment::PhysToWorkMap* pmap = e.as.phys_to_work_map();
   RAAssignment::WorkToPhysMap* wmap = e.as.work_to_phys_map();
   if (nondet_bool()) {
     // PhysToWorkMap::unassign(group, phys_id, index): the entry-assignment clean-up in rapass.cpp; precondition: index = idx(group) + phys_id
-    unsigned g = nondet_u8() & 1, p = nondet_u8() & 7;
+    unsigned g = nondet_u8() & GMASK, p = nondet_u8() & PMASK;
+    V_ASSUME(p < PC[g]);
     pmap->unassign(RegGroup(g), p, e.as._layout.phys_index.get(RegGroup(g)) + p);
     for (unsigned w = 0; w < W; w++) if (m.grp[w] == g && m.loc[w] == p) { m.loc[w] = NONE; m.dirty[w] = false; }
     PMap xp; WMap xw; maps_of(m, xp, xw);
     for (unsigned k = 0; k < 4; k++) V_ASSERT(e.pm.assigned._masks[k] == xp.assigned._masks[k] && e.pm.dirty._masks[k] == xp.dirty._masks[k], "maps: unassign clears exactly the register in both masks");
-    for (unsigned i = 0; i < G * P; i++) V_ASSERT(e.pm.work_ids[i] == xp.work_ids[i], "maps: unassign clears exactly one entry");
+    for (unsigned i = 0; i < TOTAL; i++) V_ASSERT(e.pm.work_ids[i] == xp.work_ids[i], "maps: unassign clears exactly one entry");
     // (the work to phys map is rebuilt from this map afterwards by assign_work_ids_from_phys_ids)
     e.as.assign_work_ids_from_phys_ids();
     equals_model(e, m);
     V_WITNESS("map-unassign");
   }
   else {
-    pmap->reset(G * P); wmap->reset(W);
+    pmap->reset(TOTAL); wmap->reset(W);
     for (unsigned w = 0; w < W; w++) { m.loc[w] = NONE; m.dirty[w] = false; }
     equals_model(e, m);
     V_WITNESS("map-reset");
